@@ -7,7 +7,12 @@ use std::io::Write;
 pub struct Rng(pub u64);
 impl Rng {
     pub fn new(seed: u64) -> Self {
-        Rng(seed.wrapping_mul(0x9E3779B97F4A7C15).wrapping_add(0x1234_5678_9abc_def1))
+        // scramble the seed (splitmix64 finaliser) so that neighbouring seeds
+        // give unrelated streams rather than the same stream shifted by a step
+        let mut z = seed.wrapping_add(0x1234_5678_9abc_def1).wrapping_mul(0x9E3779B97F4A7C15);
+        z = (z ^ (z >> 30)).wrapping_mul(0xBF58476D1CE4E5B9);
+        z = (z ^ (z >> 27)).wrapping_mul(0x94D049BB133111EB);
+        Rng(z ^ (z >> 31))
     }
     pub fn next(&mut self) -> u64 {
         self.0 = self.0.wrapping_add(0x9E3779B97F4A7C15);
